@@ -7,7 +7,7 @@ From Rustun Require Import Base.Tlv Agent.Reasm Agent.ReasmDrive Agent.ReasmRs.
 From Rustun Require Import Agent.Rto Agent.Model Agent.Monitors.
 From Rustun Require Import Codec.Wire Codec.WireMon Codec.EncodeMsg.
 From Rustun Require Import Agent.ArcHeap Proofs.ArcHeapProofs.
-From Rustun Require Import Codec.AttrValue.
+From Rustun Require Import Codec.AttrValue Codec.WireFull Codec.Message.
 Extraction Language OCaml.
 Extraction "model.ml"
   FilterCase.filter_case FilterCase.monitor_C09 FilterCase.monitor_C18_all
@@ -16,4 +16,6 @@ Extraction "model.ml"
   Wire.decode Wire.dec_ok_basic WireMon.monitor_C18 WireMon.monitor_C03dec WireMon.rfc_verdict
   EncodeMsg.encode_msg EncodeMsg.monitor_C14 EncodeMsg.msg_type_of
   ArcHeap.heap0 ArcHeapProofs.outs_s ArcHeapProofs.outs_p ArcHeapProofs.wfb
-  AttrValue.av_case_dec AttrValue.av_case_enc AttrValue.av_wf.
+  AttrValue.av_case_dec AttrValue.av_case_enc AttrValue.av_wf
+  WireFull.dec_ok_full WireFull.typed_attrs
+  Message.encode_typed Message.decode_typed Message.monitor_C01 Message.ctor_of Message.quoted_roundtrips Message.ctor_class.
